@@ -661,6 +661,8 @@ func (c *Ctx) checkColumnTables(r *fnRef) {
 		name = stable(name)
 		if col.Blocks[mk.(ssa.Instruction).Block()] {
 			L.OK("column-table-fresh", r.label, name, c.P.Pos(mk.Pos()), "allocated inside the column loop: zero for every column")
+		} else if clearedPerIteration(fn, col, mk, st) {
+			L.OK("column-table-fresh", r.label, name, c.P.Pos(mk.Pos()), "allocated once and reset with clear() at the start of every column, before any update")
 		} else {
 			L.Bad("column-table-fresh", r.label, name, c.P.Pos(mk.Pos()), "a per-column table is allocated outside the column loop and updated inside it: counts of earlier columns leak into later columns")
 		}
@@ -877,4 +879,46 @@ func passesThrough(lp *loop, target *ssa.BasicBlock, good func(from, to *ssa.Bas
 		return false
 	}
 	return !dfs(lp.Head)
+}
+
+// clearedPerIteration: the whole table made by mk is reset by the builtin clear() in the body of the
+// column loop itself (not in an inner loop), in a block that dominates every update of the table in
+// the loop: each path from the loop head to an update passes the reset in the same iteration.
+func clearedPerIteration(fn *ssa.Function, col *loop, mk ssa.Value, _ *ssa.Store) bool {
+	loops := naturalLoops(fn)
+	var updates []*ssa.Store
+	allInstrs(fn, func(in ssa.Instruction) {
+		if st, ok := in.(*ssa.Store); ok && col.Blocks[st.Block()] {
+			if ia, ok := st.Addr.(*ssa.IndexAddr); ok && sliceOrigin(ia.X) == mk {
+				updates = append(updates, st)
+			}
+		}
+	})
+	ok := false
+	allInstrs(fn, func(in ssa.Instruction) {
+		call, isCall := in.(*ssa.Call)
+		if !isCall || builtinName(call.Common()) != "clear" || !col.Blocks[call.Block()] {
+			return
+		}
+		arg := call.Common().Args[0]
+		if sliceOrigin(arg) != mk {
+			return
+		}
+		// the very slice value the updates index (the whole table), not a window of it
+		for _, st := range updates {
+			if st.Addr.(*ssa.IndexAddr).X != arg {
+				return
+			}
+		}
+		if innermostLoopOf(loops, call.Block()) != col {
+			return
+		}
+		for _, st := range updates {
+			if !(call.Block() == st.Block() && instrDominates(call, st)) && !(call.Block() != st.Block() && call.Block().Dominates(st.Block())) {
+				return
+			}
+		}
+		ok = true
+	})
+	return ok
 }
